@@ -126,6 +126,15 @@ func callsOut(roots ...[]byte) []M {
 	return r
 }
 
+var hashers = map[crypto.Hash]*Hasher{}
+
+func sharedHasher(h crypto.Hash) *Hasher {
+	if hashers[h] == nil {
+		hashers[h] = NewHasher(h)
+	}
+	return hashers[h]
+}
+
 func hashByName(n string) crypto.Hash {
 	switch n {
 	case "sha256":
@@ -226,7 +235,7 @@ func vRun(op string, in M) M {
 		}
 		keepLs := append([]encoding.BinaryMarshaler{}, ls...)
 		recNew = nil
-		hs := NewHasher(recID)
+		hs := sharedHasher(recID) // one Hasher for the whole run: a call must not depend on how an earlier one ended
 		var root []byte
 		var err error
 		p := vCatch(func() { root, err = hs.Hash(ls) })
@@ -248,6 +257,7 @@ func vRun(op string, in M) M {
 			out["emptyroot"] = vInts(er)
 		}
 		out["calls"] = callsOut(root, er)
+		vOwnOrKeep("Hasher.Hash result", root)
 		return out
 	case "merkle.Real":
 		n := vIntOf(in["n"])
@@ -257,7 +267,7 @@ func vRun(op string, in M) M {
 		var err error
 		var root2 []byte
 		p := vCatch(func() {
-			hs := NewHasher(h)
+			hs := sharedHasher(h)
 			root, err = hs.Hash(ls)
 			root2, _ = hs.Hash(ls) // the same leaves again: same root, leaves untouched
 			if n == 0 {
@@ -275,7 +285,7 @@ func vRun(op string, in M) M {
 		var root, bu []byte
 		var err error
 		p := vCatch(func() {
-			root, err = NewHasher(h).Hash(ls)
+			root, err = sharedHasher(h).Hash(ls)
 			bu = bottomUp(h, nLeaves(n))
 		})
 		return M{"ok": err == nil && p == "", "root": vInts(root), "bottomup": vInts(bu), "size": h.Size(), "intact": leavesIntact(ls, n), "panic": p}
@@ -311,7 +321,8 @@ func TestVerifDriver(t *testing.T) {
 	vMain(vRun, func(do func(string, M)) {
 		r := vRand(15)
 		n := vEnvInt("VERIF_N", 60)
-		big := []int{255, 256, 257, 511, 513, 1023, 1024, 1025, 4095, 4097}
+		// (leaf counts whose binary form has several set bits at the high end too: 24577.., 45056)
+		big := []int{255, 256, 257, 511, 513, 1023, 1024, 1025, 4095, 4097, 12289 + r.Intn(4000), 24577 + r.Intn(4000), 45056 - r.Intn(4000)}
 		if vEnvInt("VERIF_BIG", 0) > 0 {
 			big = append(big, 8191, 8193, 16385, 32767, 32769, 65535, 65536, 65537, 65538, 70001, 131071, 131073)
 		}
@@ -327,6 +338,14 @@ func TestVerifDriver(t *testing.T) {
 				r.Read(b)
 				if r.Intn(5) == 0 {
 					b = []byte{1, 2}
+				}
+				if r.Intn(6) == 0 && i > 0 { // the previous leaf with zero bytes appended or a byte removed: distinct leaves
+					prev := vBytes(vNorm(M{"x": leaves[i-1]})["x"])
+					if r.Intn(2) == 0 || len(prev) == 0 {
+						b = append(prev, make([]byte, 1+r.Intn(2))...)
+					} else {
+						b = prev[:len(prev)-1]
+					}
 				}
 				leaves[i] = vInts(b)
 			}
